@@ -695,8 +695,12 @@ func (r *c08Run) runPhase(ph int) bool {
 
 		return acts[i].tie < acts[j].tie
 	})
-	for _, a := range acts {
-		r.waitCount(a.at)
+	for i, a := range acts {
+		// actions with the same trigger happen back to back (adds
+		// end up in one commitment).
+		if i == 0 || acts[i-1].at != a.at {
+			r.waitCount(a.at)
+		}
 		if a.arm {
 			a.pay.mu.Lock()
 			a.pay.armed = true
@@ -1452,7 +1456,12 @@ func c08Hash(seed [32]byte, tag string, i int) [32]byte {
 
 const c08KnownShift = "C08-fwdpkg-index-shift"
 
+// c08IgnoreKnown is set by the reproduction test, which wants to see the
+// known finding.
+var c08IgnoreKnown bool
+
 type c08Result struct {
+	exposed      bool
 	known        string
 	bad          []string
 	inconclusive string
@@ -1523,7 +1532,9 @@ func c08RunCase(t *testing.T, plan *c08Plan) *c08Result {
 		r.inconclusive = "fixture fatal: " + strings.Join(f, "; ")
 	}
 	res.inconclusive = r.inconclusive
-	if r.shiftExposed && vstats.IsKnown(c08KnownShift) {
+	res.exposed = r.shiftExposed
+	if r.shiftExposed && vstats.IsKnown(c08KnownShift) &&
+		!c08IgnoreKnown {
 		// Known finding: processRemoteAdds indexes the forwarding
 		// package with positions of the not-yet-acked subset after a
 		// restart. Every later observation of such a case is tainted.
@@ -1694,4 +1705,72 @@ func TestVerifC08Atomic(t *testing.T) {
 			rt.Logf("inconclusive: %s", res.inconclusive)
 		}
 	})
+}
+
+// TestVerifC08ReproIndexShift is the scripted reproduction of known finding
+// C08-fwdpkg-index-shift (not part of the job table): it FAILS while
+// channelLink.processRemoteAdds indexes a partially acked forwarding package
+// with positions of the unacked subset.
+//
+//	x  : Alice->Carol, hold invoice. Carol's revoke_and_ack for Bob's
+//	     commitment is lost (connection Carol->Bob dies), so Bob cannot sign
+//	     on Bob<->Carol any more.
+//	a0 : Alice->Carol with a time lock Bob must refuse  } one commitment,
+//	a1 : Alice->Carol, valid                            } one fwd package
+//	     Bob fails a0 back (acked: index 0). a1 is handed to the outgoing
+//	     link, which cannot sign it.
+//	restart 1: a1's outgoing add is gone. Reprocessing the package gives a1
+//	     index 0 instead of 1; it is failed back to Alice with the wrong
+//	     reference, index 1 is never acked.
+//	restart 2: the package is reprocessed again, a1 - long failed back and
+//	     removed from Alice<->Bob - is forwarded to Carol as a new HTLC and
+//	     settled: Bob pays a1 out of his own pocket.
+func TestVerifC08ReproIndexShift(t *testing.T) {
+	c08IgnoreKnown = true
+	defer func() { c08IgnoreKnown = false }()
+
+	for attempt := 1; attempt <= 6; attempt++ {
+		plan := &c08Plan{
+			SideSat:   1_000_000,
+			Restarts:  2,
+			RestartAt: []int{1000, 1000}, // i.e. when the wire is idle
+			Pays: []c08PayPlan{
+				{Class: "mid", Amt: 20_000_000, Kind: c08KindHoldSettle,
+					Phase: 0, At: 0, ResPhase: 2, ResAt: 0},
+				{Class: "mid", Amt: 30_000_000, Kind: c08KindValid,
+					CltvDefect: 1, Phase: 0, At: 1000},
+				{Class: "mid", Amt: 40_000_000, Kind: c08KindValid,
+					Phase: 0, At: 1000},
+			},
+			Cuts: []*c08CutPlan{
+				{Phase: 0, Edge: c08CtoB, Kind: c08Revoke, Ord: 1},
+			},
+		}
+		plan.Seed[0] = byte(attempt)
+
+		var res *c08Result
+		t.Run(fmt.Sprintf("attempt%d", attempt), func(sub *testing.T) {
+			res = c08RunCase(sub, plan)
+		})
+		switch {
+		case res == nil || res.inconclusive != "":
+			t.Logf("attempt %d inconclusive: %+v", attempt, res)
+
+		case len(res.bad) > 0:
+			t.Fatalf("reproduced (attempt %d, partially acked package "+
+				"at a restart: %v):\n  %s", attempt, res.exposed,
+				strings.Join(res.bad, "\n  "))
+
+		case res.exposed:
+			t.Logf("attempt %d: package was partially acked at a "+
+				"restart and every oracle held: finding is fixed",
+				attempt)
+
+			return
+
+		default:
+			t.Logf("attempt %d: a0/a1 did not share a package", attempt)
+		}
+	}
+	t.Skip("could not set the scenario up")
 }
